@@ -11,6 +11,7 @@ store actions (freshness at every group creation, counter a legal successor
 at every step) and checks the final state: literals non-zero integers in
 range, declared count = the documented one (Families.tla / Transform.tla).
 """
+import json
 import numbers
 import os
 import random as _random
@@ -246,6 +247,119 @@ CHAIN_KINDS = [("xor", 2, 0), ("or", 3, 0), ("maj", 3, 0), ("eq", 2, 0), ("neq",
                ("ite", 1, 0), ("flip", 1, 0), ("lift", 2, 0), ("shuffle", 1, 0)]
 
 
+# --------------------------------------------------------------------------
+# the clause container (Container.tla / ContainerTrace.tla): traces of real CNF objects
+CONTAINER_POOL = [[], [1], [-2, 1], [0], [1, 0, -2], [1, 1], [2, -2], [1, -1, 1], [-3, 3, -3], [4, 2], [5, -5, 2, 5],
+                  [-1, -1, 1], [3, 0], [7], [2, 3, -4], [-6, 6], [1, 2, 1], [0, 0], [9, -2, 3, 1]]
+
+
+def container_traces(ck):
+    import cnfgen
+    rng = ck.rng
+    traces = []
+
+    def carrier(c):
+        k = rng.randrange(4)
+        return list(c) if k == 0 else tuple(c) if k == 1 else iter(list(c)) if k == 2 else (x for x in list(c))
+
+    for t in range(80 if ck.quick else 1500):
+        ev = []
+        first = [list(rng.choice(CONTAINER_POOL)) for _ in range(rng.choice((0, 0, 1, 2)))]
+        try:
+            F = cnfgen.CNF(first) if first else cnfgen.CNF()
+            made = True
+        except ValueError:
+            made = False
+        if not made:
+            continue                    # a constructor that refuses leaves no object to observe
+        def observe(e, outcome):
+            e.update(res=outcome, n=int(F.number_of_variables()), m=len(F),
+                     dbg=[bool(F.debug(allow_opposite=ao, allow_repetition=ar)) for ao in (False, True)
+                          for ar in (False, True)])
+            ev.append(e)
+        if first:
+            observe({"op": "add_clauses_from", "cs": first, "check": True}, "ok")
+        for _ in range(rng.randint(1, 9)):
+            op = rng.choice(("add_clause", "add_clause", "add_clause", "add_clauses_from", "update_variable_number"))
+            check = rng.random() < .6
+            if op == "add_clause":
+                c = list(rng.choice(CONTAINER_POOL))
+                e = {"op": op, "c": c, "check": check}
+                call = lambda: F.add_clause(carrier(c), check=check)             # noqa: E731
+            elif op == "add_clauses_from":
+                cs = [list(rng.choice(CONTAINER_POOL)) for _ in range(rng.randint(0, 3))]
+                e = {"op": op, "cs": cs, "check": check}
+                call = lambda: F.add_clauses_from(carrier([carrier(c) for c in cs]), check=check)   # noqa: E731
+            else:
+                k = rng.choice((-1, 0, 1, 2, 5, 8, 12))
+                e = {"op": op, "k": k}
+                call = lambda: F.update_variable_number(k)                       # noqa: E731
+            try:
+                call()
+                outcome = "ok"
+            except ValueError:
+                outcome = "ValueError"
+            except Exception as x:          # judged: not an outcome of the specification
+                outcome = type(x).__name__
+            observe(e, outcome)
+        ev.append({"op": "final", "iter": [list(c) for c in F], "items": [list(F[i]) for i in range(len(F))],
+                   "view": [list(c) for c in F.clauses()]})
+        traces.append({"id": "cont-%04d" % t, "events": ev})
+    return traces
+
+
+def validate_container(ck, wd):
+    import copy
+    import re as _re
+    mc_cfg = "Container_mc_quick.cfg" if ck.quick else "Container_mc.cfg"
+    r = tlc.model_check("Container", mc_cfg, workers=8, heap="3g")
+    ck.states += r["distinct"]
+    ck.transitions += r["generated"]
+    ck.model_runs.append({"module": "Container", "cfg": mc_cfg, "distinct": r["distinct"],
+                          "generated": r["generated"], "wall_s": round(r["wall"], 1)})
+    for cfg, what in (("Container_quirk.cfg", "Invariant AgreeAlways is violated"),
+                      ("Container_kept.cfg", "Action property RefusalIsNoop is violated")):
+        x = tlc.run_tlc("Container", cfg, workers=2)
+        if what not in x["out"]:
+            raise tlc.MachineryError("%s was expected to exhibit the named deviation" % cfg)
+        ck.count("expected_counterexamples_found", 1)
+    traces = container_traces(ck)
+    base = next(t for t in traces if len(t["events"]) >= 4)
+    a = copy.deepcopy(base); a["id"] = "demo-corrupt-count"; a["events"][1]["m"] += 1
+    b = copy.deepcopy(base); b["id"] = "demo-dropped-event"; del b["events"][0]
+    if b["events"][0]["op"] == "final" or base["events"][0].get("m", 0) == 0 and base["events"][0]["res"] == "ok" \
+            and base["events"][0]["op"] == "update_variable_number" and base["events"][0]["n"] == 0:
+        b = None                       # dropping a call without effect leaves a behaviour
+    c = copy.deepcopy(base); c["id"] = "demo-flipped-debug"
+    c["events"][0]["dbg"] = [not x for x in c["events"][0]["dbg"]]
+    demos = [d for d in (a, b, c) if d is not None]
+    path = os.path.join(wd, "container_traces.json")
+    with open(path, "w") as f:
+        json.dump(traces + demos, f)
+    r = tlc.run_tlc("ContainerTrace", "ContainerTrace.cfg", env={"TRACE_FILE": path}, workers=4, heap="3g", timeout=1800)
+    ck.states += r["distinct"]
+    ck.transitions += r["generated"]
+    if r["rc"] != 0:
+        raise tlc.MachineryError("container trace validation failed to run:\n" + r["out"][-2000:])
+    accepted = set(_re.findall(r'<<"ACCEPTED", "([^"]+)">>', r["out"]))
+    rejected_demos = [d["id"] for d in demos if d["id"] not in accepted]
+    if len(rejected_demos) < len(demos) - 1 or "demo-corrupt-count" in accepted:
+        raise tlc.MachineryError("binding demonstration: corrupted container traces were accepted: %r"
+                                 % sorted(set(d["id"] for d in demos) & accepted))
+    ck.count("corrupted_container_traces_rejected", len(rejected_demos))
+    for tr in traces:
+        ok = tr["id"] in accepted
+        ck.replayed({"id": tr["id"], "fam": "container", "trace": tr}, ok,
+                    "ok" if ok else "container:trace_is_not_a_behaviour_of_Container.tla")
+    ck.count("container_traces_validated", len(traces))
+    ck.count("container_trace_events", sum(len(t["events"]) for t in traces))
+    ck.count("container_refusals_that_kept_the_clause",
+             sum(1 for t in traces for k, e in enumerate(t["events"])
+                 if e.get("res") == "ValueError" and e["op"] == "add_clause" and e["m"] > (t["events"][k - 1]["m"] if k else 0)))
+    ck.model_runs.append({"module": "ContainerTrace", "cfg": "ContainerTrace.cfg", "distinct": r["distinct"],
+                          "generated": r["generated"], "wall_s": round(r["wall"], 1)})
+
+
 def main(argv=None):
     ck = common.Check("C10", argv)
     common.setup_repo_import()
@@ -414,6 +528,7 @@ def main(argv=None):
     for r in (records[0], records[len(records) // 2], records[-1]):
         ck.sample({k: r[k] for k in ("id", "fam", "par", "chain", "final", "events")})
     ck.judge("JudgeStore", records, cfg="JudgeStore.cfg", heap="3g")
+    validate_container(ck, tlc.workdir("C10cont"))
     wall = unbounded[0].result()
     nobl, wall2 = unbounded[1].result()
     ck.model_runs.append({"module": "StoreInd", "tool": "apalache-mc", "queries": "Init=>IndInv; IndInv/\\Next=>IndInv'; "
